@@ -21,7 +21,7 @@ var noEffectPkgs = []string{
 
 // pureFuncs: library functions assumed to only read the memory reachable from their arguments.
 var pureFuncs = map[string]bool{
-	"golang.org/x/crypto/blake2b.Sum256": true, "golang.org/x/crypto/blake2b.Sum512": true,
+	"golang.org/x/crypto/blake2b.Sum256": true, "crypto/ed25519.Verify": true, "golang.org/x/crypto/blake2b.Sum512": true,
 	"crypto/aes.NewCipher": true, "crypto/cipher.NewGCM": true,
 	// reflection used as plumbing (values carried in and out): effects through reflect.Value.Set are not modelled
 	"reflect.ValueOf": true, "reflect.TypeOf": true, "reflect.New": true, "(reflect.Value).Interface": true, "(reflect.Value).Elem": true,
@@ -779,7 +779,7 @@ func (x *Exec) setGhost(st *State, key string, t *Term) {
 // ghostInit returns the entry value of a ghost variable (a named symbol), by key prefix.
 func (x *Exec) ghostInit(key string) *Term {
 	switch {
-	case strings.HasPrefix(key, "ncalls:"):
+	case strings.HasPrefix(key, "ncalls:"), strings.HasPrefix(key, "nok:"):
 		return BVLit64(0, 64)
 	case strings.HasPrefix(key, "lock:"):
 		return IntLit(0)
@@ -953,6 +953,22 @@ func registerSpecBuiltins(x *Exec) {
 			unsup("spec: ncalls: no recorded call to %s in the caller's scope", lit.Text)
 		}
 		if t, ok := sc.st.ghost["ncalls:"+lit.Text]; ok {
+			return scalar(tInt, t)
+		}
+		return scalar(tInt, BVLit64(0, 64))
+	}
+	// nok("(pkg.Iface).Method"): number of calls so far that succeeded (nil error / true; (true, nil) for a
+	// (bool, error) result) -- maintained for interface methods with an assumed contract and for callees
+	// with a contract
+	x.specBuiltins["nok"] = func(sc *specScope, n *ECall) Value {
+		lit, ok := n.Args[0].(*ELit)
+		if !ok {
+			unsup("spec: nok(\"func\")")
+		}
+		if sc.assumeMode {
+			unsup("spec: nok: no recorded call to %s in the caller's scope", lit.Text)
+		}
+		if t, ok := sc.st.ghost["nok:"+lit.Text]; ok {
 			return scalar(tInt, t)
 		}
 		return scalar(tInt, BVLit64(0, 64))
